@@ -15,7 +15,17 @@ from harness.props import c02 as C02mod
 
 def gen_pr_scenario(rng):
     case = SC.gen_scenario(rng, pr=True, big=True)
-    case["ops"] = case["ops"] + [[12], [11]]
+    ops = case["ops"]
+    if rng.random() < 0.5 and [9] in ops:
+        # channels created while the network is misbehaving (their DCEP OPEN / ACK can be lost, duplicated, overtaken),
+        # then used
+        first = ops.index([9]) + 1
+        for _ in range(rng.randrange(1, 4)):
+            at = rng.randrange(first, len(ops) + 1)
+            ep = rng.randrange(2)
+            ops[at:at] = [[0, ep, rng.choice([2, 3, 4, 5, 6, 0]), rng.randrange(40)]] + \
+                [[1, ep, -1, rng.randrange(2), rng.choice([1, 100, 1200, 3000])] for _ in range(rng.randrange(0, 3))]
+    case["ops"] = ops + [[12], [11]]
     return case
 
 
@@ -31,7 +41,8 @@ class C06(C02mod.C02):
                   "(probe message on every channel after the network healed), not proved.")
     rule = ("k=0: sender histories with 25-40% partially reliable messages (maxRetransmits 0/1, lifetimes), messages "
             "of up to 11 fragments (> cwnd), SACKs, T3, time jumps; k=2: receiver event lists with FORWARD-TSN; "
-            "k=1: two real endpoints, mixed channel kinds, faults, heal, probe on every channel, heal; "
+            "k=1: two real endpoints, mixed channel kinds (half of the runs also create channels while faults are being injected), faults, "
+            "heal, probe on every channel, heal; "
             "distinct by (case, outputs); non-trivial = at least one FORWARD-TSN sent or received, or a message "
             "abandoned")
 
@@ -160,6 +171,14 @@ def scenario_oracle_pr(obs):
     if not obs["healed_mid"] or obs["healed_mid"][0] is None or obs["healed_rounds"] is None or not obs["quiescent"]:
         return ("not-quiescent-after-healing", f"queues sent={obs['sent_queue']} outbound={obs['outbound_queue']}")
     pr = lambda c: c["maxRetransmits"] is not None or c["maxPacketLifeTime"] is not None
+    # a channel that was created and never closed is usable once the network has recovered (its DCEP OPEN / ACK are
+    # sent reliably whatever the channel's own reliability): otherwise nothing sent on it afterwards can be delivered
+    for ep in (0, 1):
+        remote = set(key for e, kind, key, m in obs["events"] if e == ep and kind == "datachannel")
+        for i, ch in enumerate(obs["channels"][ep]):
+            if i not in remote and (ep, i) not in closed and ch["state"] == "connecting":
+                return ("no-recovery-after-healing", f"ep{ep} channel #{i} (id {ch['id']}, {'PR' if pr(ch) else 'reliable'}) is still "
+                                                     "'connecting' after the network healed: nothing can be sent on it")
     for ep, i, j, ch in SC.pair_channels(obs):
         peer = obs["channels"][1 - ep][j]
         if (ep, i) in closed or ch["state"] != "open" or peer["state"] != "open":
